@@ -1703,6 +1703,8 @@ var opForward = []struct{ fn, callee string }{
 	// protocol reads that must not be answered from a cache: the answer changes behind the caller's back
 	{"(*backend/remote.Remote).info", "(*net/http.Client).Do"},
 	// the replica resource the action gate (checkAction) and the controller's polls read: built from the server's current state
+	// a resize the frontend acknowledges was handed to the SCSI target (a frontend that is down refuses)
+	{"(*frontend/gotgt.goTgt).Resize", "invoke:Resize"},
 	{"(*replica/rest.Server).Replica", "(*replica.Server).Status"},
 	{"(*replica/rest.Server).Replica", "replica/rest.NewReplica"},
 	{"(*backend/dynamic.Factory).VerifyReplicaAlive", "invoke:VerifyReplicaAlive"},
@@ -1777,7 +1779,7 @@ func ruleOpForward(rule string) ruleFn {
 			}
 			c.Guard(rule, fn, sites, "report success", nil, need)
 		}
-		if n < 28 {
+		if n < 29 {
 			c.Undecided(rule, "vacuity-floor", "", fmt.Sprintf("only %d data-path functions found", n))
 		}
 	}
